@@ -73,7 +73,7 @@ C11Holds(k, r) ==
         \E t \in PanObjs(root) : \E u \in {root} : u.k = "obj" /\ (u.pan # <<>> \/ \E i \in 1..Len(u.scr) : u.scr[i].o = "Panic")
   IN IF Exc(r) THEN propagates
      ELSE LET s == Strip(Out(r)) IN
-          k.e = "Sprintf" => (HasPrefix(s, <<A, 32>>) /\ HasSuffix(s, <<32, A>>))
+          (k.e = "Sprintf" /\ HasPrefix(k.f, <<A, 32>>)) => (HasPrefix(s, <<A, 32>>) /\ HasSuffix(s, <<32, A>>))
 
 \* C15 on the slice "errorf"
 RECURSIVE CountW(_)
